@@ -9,6 +9,7 @@ LEAN_MODULE = "TsProofs.Properties.C18"
 THEOREMS = [
     "Ts.Snapshot.C18_value",
     "Ts.Snapshot.C18_tile_size_bound",
+    "Ts.Snapshot.C18_budget",
     "Ts.Snapshot.readTiled_of_stored",
     "Ts.Snapshot.C01_dataplane_roundtrip",
     "Ts.C16.C16_tile_partition",
@@ -29,7 +30,7 @@ LEVEL_TEXT = ("Lean 4 theorems on the data-plane model: for every committed take
               "each entry through the tiled reader returns exactly the saved leaf and equals what restore returns (C18_value); every "
               "tile is smaller than budget + one element (C18_tile_size_bound). Tied to the real read_object by comparing values, the "
               "byte ranges actually read (= model tiles) and measured in-flight buffer bytes over the budget/obj_out/batching grid.")
-LEVEL_NOTE = ("The in-flight bound combines C18_tile_size_bound with the read pipeline's admission invariant proved in C10; torch_save "
+LEVEL_NOTE = ("C18_budget is C10_bound_read instantiated with the tiles' costs (plus C18_tile_size_bound for how far a single tile can exceed the budget); torch_save "
               "pieces are not tiled and under-declare their cost (finding D15). Trusted: Lean kernel, hand models, harness probe.")
 TECHNIQUE = "Lean 4 proof over data-plane model (tiled reader) + real read_object over the budget/obj_out/batching grid"
 
